@@ -307,6 +307,7 @@ type layoutContext struct {
 	marginClearance bool
 	forcedBreak     bool
 	inColumn        bool
+	inMarginBox     bool // laying out the content of a page-margin box, which is never fragmented
 }
 
 // presentationalHints=false,
